@@ -608,7 +608,7 @@ class AssociationSocket:
 
         return bytestream
 
-    def send(self, bytestream: bytes) -> None:
+    def send(self, bytestream: bytes) -> bool:
         """Try and send the data in `bytestream` to the remote.
 
         *Events Emitted*
@@ -620,6 +620,11 @@ class AssociationSocket:
         ----------
         bytestream : bytes
             The data to send to the remote.
+
+        Returns
+        -------
+        bool
+            ``True`` if all the data was sent, ``False`` otherwise.
         """
         self.socket = cast(socket.socket, self.socket)
         total_sent = 0
@@ -634,6 +639,9 @@ class AssociationSocket:
         except Exception:
             # Evt17: Transport connection closed
             self.event_queue.put("Evt17")
+            return False
+
+        return True
 
     def _shutdown_socket(self) -> None:
         """Try to shutdown and close the socket."""
